@@ -122,6 +122,11 @@ Calls(op, path, name, mname, on, args, cl, objs, entity, pre, ret) ==
      \* every arity n-1 .. n-nd (C06: the toolbox offers exactly the arities n .. n-k)
      \o [j \in 1..nd |-> CallStepK(op, path, name, mname, on, "", [i \in 1..(n - j) |-> ArgPy(args, cl, i)], NoKw, <<logOmit(j)>>, ret, "", kinds(n - j))]
 
+\* the C++ spellings of the classes a result hands back (for the classification of known findings)
+RetCpps(r, cl) ==
+  LET one(t) == IF t.cpp # "" /\ t.cpp # "void" /\ Kind(t, cl) = "class" THEN << BaseName(St(t.cpp)) >> ELSE <<>>
+  IN one(r.t1) \o (IF r.pair THEN one(r.t2) ELSE <<>>)
+WithRetCpp(steps, r, cl) == [i \in 1..Len(steps) |-> steps[i] @@ [retcpp |-> RetCpps(r, cl)]]
 RetOf(r, cl) ==
   IF r.pair THEN (IF Kind(r.t1, cl) # "other" /\ Kind(r.t2, cl) # "other" THEN "tuple" ELSE "any")   \* (a type Python does not know cannot come back)
   ELSE IF r.t1.cpp = "void" THEN "none"
@@ -160,8 +165,8 @@ MethodPartOn(selfcr, cr, cl, m, static, id) ==
            ent == cr.cpp \o "::" \o m.cpp
        IN Acc((IF static THEN <<>> ELSE << NewObj(selfcr, cl, "self", selfid) >>)
               \o [k \in 1..Len(objs) |-> objs[k].step]
-              \o Calls(IF static THEN "static" ELSE "method", selfcr.path, pyname, m.name, IF static THEN "" ELSE "self", m.args, cl, objs, ent,
-                       IF static THEN <<>> ELSE << "obj" \o ToString(selfid) >>, RetOf(m.ret, cl))
+              \o WithRetCpp(Calls(IF static THEN "static" ELSE "method", selfcr.path, pyname, m.name, IF static THEN "" ELSE "self", m.args, cl, objs, ent,
+                                  IF static THEN <<>> ELSE << "obj" \o ToString(selfid) >>, RetOf(m.ret, cl)), m.ret, cl)
               \o (IF ~static /\ m.name = "print" /\ Len(m.args) = 0 /\ selfcr = cr
                   THEN << CallStep("repr", cr.path, "", "self", "", <<>>, NoKw, << ent \o "(obj" \o ToString(selfid) \o ")" >>, "val:'printed'", "") >> ELSE <<>>),
               id0 + Len(objs))
@@ -245,7 +250,7 @@ NsPlan(items, nspath, cl, acc) ==
                        IF ~Suppliable(d.args, cl) THEN Acc(<<>>, acc.id)
                        ELSE LET objs == ArgObjs(d.args, cl, 1, acc.id) IN
                             Acc([k \in 1..Len(objs) |-> objs[k].step]
-                                \o Calls("func", nspath, FuncPyName(d.name), d.name, "", d.args, cl, objs, JoinStr(nspath \o <<d.cpp>>, "::"), <<>>, RetOf(d.ret, cl)),
+                                \o WithRetCpp(Calls("func", nspath, FuncPyName(d.name), d.name, "", d.args, cl, objs, JoinStr(nspath \o <<d.cpp>>, "::"), <<>>, RetOf(d.ret, cl)), d.ret, cl),
                                 acc.id + Len(objs))
                   [] d.k = "enum" ->
                        Acc([j \in 1..Len(d.enumerators) |->
